@@ -58,7 +58,7 @@ theorem interned_sharing_nested {env : Nat → NTy} {hash : Nat → NVal → Nat
   obtain ⟨d, I', h1, h2, _, hok, hc⟩ := C12Nested.interned_roundtrip_nested hinj hbound t v hwt hS I hI rest fuel hfuel
   exact ⟨d, I', h1, h2, sharing_of_canon hinj (fun k s p h => ⟨(hok k s p h).1, (hok k s p h).2.1⟩) hc⟩
 
-/-- The same under the WEAK hypothesis `IOkW` on the decoder-side interner (repaired decoder, /repo F61COMMIT; live
+/-- The same under the WEAK hypothesis `IOkW` on the decoder-side interner (repaired decoder, /repo 8f43b2a; live
 values may hold `Interned::new_duplicating` handles): the sharing relation holds among all handles this decode
 produced — `d.handlesAbove I.length`, every handle of `d` not inside an allocation that existed before the call.
 What a non-canonical live value holds inside (its private copies) is, of course, not shared with anything. -/
